@@ -178,6 +178,10 @@ class Scenario:
     def close(self):
         SCHED.release_all()
         try:
+            self.caller.join(3.0)         # the released caller finishes its script freely (real time from here on)
+        except Exception:
+            pass
+        try:
             self._quiet.__exit__(None, None, None)
         except Exception:
             pass
